@@ -706,24 +706,31 @@ def _visible_names(exc):
     return names
 
 
-def _refusal(fn, value):
-    try:
-        fn(value)
-    except Timeout:
-        raise
-    except Exception as exc:  # noqa
-        return exc
-    return None
+def _refusal(fn, value, entry="?"):
+    """the exception fn(value) ends in (None when it returns) - under the CPU-time guard: a probe must not be able to stall the check"""
+    box = {}
+
+    def call():
+        try:
+            fn(value)
+        except Timeout:
+            raise
+        except Exception as exc:  # noqa
+            box["exc"] = exc
+    t = timed(call, 2.0)
+    check(t is not None and t <= R1_LIMIT, "short-input-stalls",
+          lambda: "entry point %s: the %d-character value %r took %s CPU seconds (limit %.2f s)" % (entry, len(value), value, "more than 2.0" if t is None else "%.3f" % t, R1_LIMIT))
+    return box.get("exc")
 
 
 def template_case(case, eps=None):
     eps = eps or entry_points()
     fn = dict(eps)[case["entry"]]
     base = case["base"]
-    plain = _refusal(fn, base + "(x:>10000)")
+    plain = _refusal(fn, base + "(x:>10000)", case["entry"])
     names = set(COMMON_NAMES)
     for probe in ("{x}", "%(x)s", "${x}", "{0}", "%s %s %s %s %s %s %s %s"):
-        exc = _refusal(fn, base + probe)
+        exc = _refusal(fn, base + probe, case["entry"])
         if exc is not None:
             names |= _visible_names(exc)
     names = sorted(n for n in names if len(n) <= 24)
@@ -740,19 +747,12 @@ def template_case(case, eps=None):
         for style in (case["styles"] if "styles" in case else styles):
             for width in TEMPLATE_WIDTHS:
                 value = base + style.replace("@W@", str(width))
-                box = {}
-
-                def call():
-                    box["exc"] = _refusal(fn, value)
-                t = timed(call, 2.0)
-                exc = box.get("exc")
+                exc = _refusal(fn, value, case["entry"])
                 size = len(str(exc)) if exc is not None else 0
                 refused += exc is not None
                 check(size <= plain_len + 64 * len(value) + 1000, "refused-value-used-as-template",
                       lambda: "entry point %s: the %d-character value %r is refused with a message of %d characters (a value of the same length without a width: %d characters); every further digit multiplies the work by ten" % (
                           case["entry"], len(value), value, size, plain_len))
-                check(t is not None and t <= R1_LIMIT, "short-input-stalls",
-                      lambda: "entry point %s: the %d-character value %r took %s CPU seconds (limit %.2f s)" % (case["entry"], len(value), value, "more than 2.0" if t is None else "%.3f" % t, R1_LIMIT))
     return {"nontrivial": refused > 0, "labels": ["refused" if refused else "accepted", "names:%d" % min(len(names) // 10 * 10, 40)], "tried": refused}
 
 
